@@ -265,7 +265,7 @@ pub fn c10(tier: Tier) -> i32 {
     // long sequences: lengths around 256 / 512 and beyond, chunk boundaries and widths at and around
     // these sizes (a menu of cut points instead of all compositions), through the chunk-taking entry
     // points and through records parsed from input laid out with the same line lengths
-    let long_lens: &[usize] = if tier == Tier::Quick { &[255, 256, 257, 300, 513, 700] } else { &[63, 64, 65, 255, 256, 257, 300, 511, 512, 513, 700, 1025, 4097, 70_000] };
+    let long_lens: &[usize] = if tier == Tier::Quick { &[255, 256, 257, 300, 513, 700, 4097, 8193, 20_011] } else { &[63, 64, 65, 255, 256, 257, 300, 511, 512, 513, 700, 1025, 4097, 8191, 8192, 8193, 16_385, 20_011, 65_537, 70_000, 140_003] };
     let t_long = par_sweep(long_lens.len() as u64, 1, |idx, l| {
         let n = long_lens[idx as usize];
         let seq: Vec<u8> = (0..n).map(filler).collect();
@@ -275,7 +275,7 @@ pub fn c10(tier: Tier) -> i32 {
             f(&mut v).unwrap();
             v
         };
-        let mut cuts: Vec<usize> = vec![1, 2, 4, 63, 64, 65, 255, 256, 257, 511, 512, 513, n / 2, n - 1];
+        let mut cuts: Vec<usize> = vec![1, 2, 4, 63, 64, 65, 255, 256, 257, 511, 512, 513, 4096, 8191, 8192, 8193, n / 2, n - 1];
         cuts.retain(|&c| c > 0 && c < n);
         cuts.sort();
         cuts.dedup();
@@ -364,7 +364,7 @@ pub fn c10(tier: Tier) -> i32 {
         Report {
             property: "C10".into(),
             tier: tier.name().into(),
-            rule: format!("sequences = first n positional letters, n = 0..{}; every wrap width 1..n+2; {} headers (fixed menu: empty, spaces leading/trailing/multiple, '>' inside, non-UTF-8, CR inside / leading; plus ALL headers of <= 3 bytes over {{space, TAB, CR, letter, non-UTF-8 byte, '>', '@', '+'}} not ending in CR); entry points write_to, write_parts, write_wrap, write_head, write_id_desc, write_seq, write_wrap_seq, write_seq_iter, write_wrap_seq_iter, OwnedRecord::{{write,write_wrap}}, RefRecord::{{write,write_wrap}} (RefRecord parsed from every line splitting of the sequence, LF and CRLF); ALL 2^(n-1) compositions of the sequence into chunks, each also with 1-2 empty chunks inserted at every position; oracle: output parses back (reference parser and real reader) to (header, sequence), 2-3 records back to back parse to the list, wrapped lines <= width and all but the last = width, chunked output = whole output byte for byte (n >= 1); every call repeated into a writer that accepts only 1 or 3 bytes per write(): same bytes; PLUS long sequences (lengths 255, 256, 257, 300, 513, 700; thorough up to 70 000) with a menu of cut points at and around 64/256/512 (all 2- and 3-part splits over the menu, an empty chunk, regular lines of 60/70/80/256) and widths 1, 60, 70, 255-257, n-1..n+1: write_seq_iter / write_wrap_seq_iter = whole-sequence output, RefRecord::write of the record parsed from input with these line lengths (LF/CRLF, from next() and from a record set) parses back", maxn, heads_v.len()),
+            rule: format!("sequences = first n positional letters, n = 0..{}; every wrap width 1..n+2; {} headers (fixed menu: empty, spaces leading/trailing/multiple, '>' inside, non-UTF-8, CR inside / leading; plus ALL headers of <= 3 bytes over {{space, TAB, CR, letter, non-UTF-8 byte, '>', '@', '+'}} not ending in CR); entry points write_to, write_parts, write_wrap, write_head, write_id_desc, write_seq, write_wrap_seq, write_seq_iter, write_wrap_seq_iter, OwnedRecord::{{write,write_wrap}}, RefRecord::{{write,write_wrap}} (RefRecord parsed from every line splitting of the sequence, LF and CRLF); ALL 2^(n-1) compositions of the sequence into chunks, each also with 1-2 empty chunks inserted at every position; oracle: output parses back (reference parser and real reader) to (header, sequence), 2-3 records back to back parse to the list, wrapped lines <= width and all but the last = width, chunked output = whole output byte for byte (n >= 1); every call repeated into a writer that accepts only 1 or 3 bytes per write(): same bytes; PLUS long sequences (lengths 255, 256, 257, 300, 513, 700, 4097, 8193, 20011; thorough up to 140 003) with a menu of cut points at and around 64/256/512/4096/8192 (all 2- and 3-part splits over the menu, an empty chunk, regular lines of 60/70/80/256) and widths 1, 60, 70, 255-257, n-1..n+1: write_seq_iter / write_wrap_seq_iter = whole-sequence output, RefRecord::write of the record parsed from input with these line lengths (LF/CRLF, from next() and from a record set) parses back", maxn, heads_v.len()),
             exhaustive: true,
             assumptions: vec!["sequence bytes are positional letters (no LF, CR, '>'); the writers never inspect sequence bytes".into()],
             extra: json!({"states_note": "states = (sequence length, width, header, entry point, chunking) cases; transitions = writer calls"}),
@@ -612,6 +612,47 @@ pub fn c11(tier: Tier) -> i32 {
 
 pub fn c19(tier: Tier) -> i32 {
     let mut tot = Totals::empty();
+    // owned records are plain data with public fields: every combination of field values from a menu
+    // (not only what a parser can produce: unequal sequence / quality lengths, line terminators and
+    // marker bytes inside fields, non-UTF-8) must survive all three formats
+    {
+        let menu: Vec<Vec<u8>> = vec![vec![], b"a".to_vec(), b"ab".to_vec(), b"@>+ \t".to_vec(), b"x\ry\nz\r\n".to_vec(), vec![0xff, 0x00, 0x80, 0xc3], (0..=255u8).collect()];
+        let n = menu.len();
+        let menu = &menu;
+        let t = par_sweep((n * n * n) as u64, 1, |idx, l| {
+            let (a, b, c) = (idx as usize % n, (idx as usize / n) % n, idx as usize / (n * n));
+            let mut check = |what: &str, ok: Result<bool, String>, l: &mut Local| {
+                l.evals += 1;
+                l.nontrivial += 1;
+                l.count("constructed_owned_records", 1);
+                if ok != Ok(true) {
+                    l.violation(Violation {
+                        property: "C19".into(),
+                        sig: format!("constructed|{}", what.split(' ').next().unwrap_or("")),
+                        detail: format!("{} with head {:?} seq {:?} qual {:?}: {:?}", what, esc(&menu[a]), esc(&menu[b]), esc(&menu[c]), ok),
+                        weight: (a + b + c) as u64,
+                        replay: json!({"kind": "serde", "what": what, "head": esc(&menu[a]), "seq": esc(&menu[b]), "qual": esc(&menu[c])}),
+                    });
+                }
+            };
+            let fq = seq_io::fastq::OwnedRecord { head: menu[a].clone(), seq: menu[b].clone(), qual: menu[c].clone() };
+            check("fastq JSON", serde_json::to_string(&fq).map_err(|e| e.to_string()).and_then(|s| serde_json::from_str::<seq_io::fastq::OwnedRecord>(&s).map_err(|e| e.to_string())).map(|r| r == fq), l);
+            let mut cb = vec![];
+            let r = ciborium::ser::into_writer(&fq, &mut cb).map_err(|e| e.to_string()).and_then(|_| ciborium::de::from_reader::<seq_io::fastq::OwnedRecord, _>(&cb[..]).map_err(|e| e.to_string())).map(|r| r == fq);
+            check("fastq CBOR", r, l);
+            check("fastq positional", crate::posfmt::to_vec(&fq).and_then(|v| crate::posfmt::from_slice::<seq_io::fastq::OwnedRecord>(&v)).map(|r| r == fq).map_err(|e| e.to_string()), l);
+            if c == 0 {
+                let fa = seq_io::fasta::OwnedRecord { head: menu[a].clone(), seq: menu[b].clone() };
+                check("fasta JSON", serde_json::to_string(&fa).map_err(|e| e.to_string()).and_then(|s| serde_json::from_str::<seq_io::fasta::OwnedRecord>(&s).map_err(|e| e.to_string())).map(|r| r == fa), l);
+                let mut cb = vec![];
+                let r = ciborium::ser::into_writer(&fa, &mut cb).map_err(|e| e.to_string()).and_then(|_| ciborium::de::from_reader::<seq_io::fasta::OwnedRecord, _>(&cb[..]).map_err(|e| e.to_string())).map(|r| r == fa);
+                check("fasta CBOR", r, l);
+                check("fasta positional", crate::posfmt::to_vec(&fa).and_then(|v| crate::posfmt::from_slice::<seq_io::fasta::OwnedRecord>(&v)).map(|r| r == fa).map_err(|e| e.to_string()), l);
+            }
+        });
+        println!("  constructed owned records: {} field combinations, {} round trips, {:.1}s", n * n * n, t.evals, t.wall_s);
+        tot.merge(t);
+    }
     for format in [Format::Fasta, Format::Fastq] {
         let mut fams = crate::c_inputs::families(format, tier);
         // class strings two shorter than the conformance sweeps (four serialisations per batch)
@@ -769,7 +810,7 @@ pub fn c19(tier: Tier) -> i32 {
         Report {
             property: "C19".into(),
             tier: tier.name().into(),
-            rule: "every input of the class-string / structured / record-shape families (two instantiations of the data class: ASCII and arbitrary bytes incl. 0x00, 0xFF, quote, backslash) x every capacity: one record set reused for all batches (so later, smaller batches carry stale offsets beyond len(); counted), after every batch the set and every owned record are serialised with serde_json, ciborium (CBOR) and a positional (bincode-like, non-self-describing) format, deserialised and compared (owned records by ==, sets by iterating both: count, all fields, sequence lines); non-trivial = run with at least one record".into(),
+            rule: "every input of the class-string / structured / record-shape families (two instantiations of the data class: ASCII and arbitrary bytes incl. 0x00, 0xFF, quote, backslash) x every capacity: one record set reused for all batches (so later, smaller batches carry stale offsets beyond len(); counted), after every batch the set and every owned record are serialised with serde_json, ciborium (CBOR) and a positional (bincode-like, non-self-describing) format, deserialised and compared; plus owned records CONSTRUCTED from every combination of 7 field values (empty, unequal lengths, marker bytes, line terminators, non-UTF-8, all 256 byte values) (owned records by ==, sets by iterating both: count, all fields, sequence lines); non-trivial = run with at least one record".into(),
             exhaustive: true,
             assumptions: crate::c_inputs::std_assumptions(),
             extra: json!({"states_note": "states = non-trivial executions; transitions = serialisation round trips"}),
